@@ -450,6 +450,13 @@ pub fn run_parent(info: &PropInfo, tier: Tier, seed: u64, workers: u32) -> Paren
         println!("KNOWN-FINDING: property={} {} (signature {:?}, met {} times in this run)", info.id, desc, sig, hits);
     }
     failures.sort_by_key(|(i, _)| *i);
+    // a failure raised by the harness about itself (case outside the domain, two reference models
+    // disagreeing) is an infrastructure problem, never a verdict about the library
+    let (harness_errs, failures): (Vec<_>, Vec<_>) = failures.into_iter().partition(|(_, f)| f.signature.starts_with("harness:"));
+    for (w, f) in &harness_errs {
+        println!("HARNESS-ERROR property={} worker {}: {} — {}\n  case: {}", info.id, w, f.signature, f.message, sdjwt_model::sut::clip(&serde_json::to_string(&f.case).unwrap_or_default(), 2000));
+        inconclusive.push(format!("harness error {}", f.signature));
+    }
     if let Some((w, f)) = failures.first() {
         violations = failures.len();
         let keep = root.join("replays").join(info.id);
